@@ -34,7 +34,7 @@ func Keys[M ~map[K]V, K comparable, V any](m M, site string) []K {
 	sortKeys(keys)
 	if permuteEnabled(c, site) {
 		for i := 0; i < n-1; i++ {
-			j := i + c.Tape.Draw(n-i, site)
+			j := i + orderDraw(c, n-i, site)
 			keys[i], keys[j] = keys[j], keys[i]
 		}
 	}
@@ -111,13 +111,24 @@ func goid() int64 {
 	return id
 }
 
+// The goroutine table and the pass-through flag are process-wide and only ever
+// accessed atomically: a goroutine left over from an earlier phase or run that
+// reaches a hook finds no entry for itself and passes through, without touching
+// memory owned by the current run.
+var (
+	gTable [tableSize]slot
+	gFree  atomic.Bool
+)
+
+func init() { gFree.Store(true) }
+
 //go:norace
-func (s *Sched) lookup(id int64) *Task {
+func lookup(id int64) *Task {
 	raceDisable()
 	h := int(uint64(id)*0x9E3779B97F4A7C15>>40) & (tableSize - 1)
 	var t *Task
 	for i := 0; i < tableSize; i++ {
-		sl := &s.table[(h+i)&(tableSize-1)]
+		sl := &gTable[(h+i)&(tableSize-1)]
 		v := sl.id.Load()
 		if v == id {
 			t = sl.t.Load()
@@ -132,11 +143,11 @@ func (s *Sched) lookup(id int64) *Task {
 }
 
 //go:norace
-func (s *Sched) register(id int64, t *Task) {
+func register(id int64, t *Task) {
 	raceDisable()
 	h := int(uint64(id)*0x9E3779B97F4A7C15>>40) & (tableSize - 1)
 	for i := 0; i < tableSize; i++ {
-		sl := &s.table[(h+i)&(tableSize-1)]
+		sl := &gTable[(h+i)&(tableSize-1)]
 		if sl.id.CompareAndSwap(0, id) {
 			sl.t.Store(t)
 			break
@@ -157,19 +168,21 @@ const (
 
 //go:norace
 func curTask() (*Sched, *Task) {
-	c := current()
-	if c == nil {
+	if gFree.Load() {
 		return nil, nil
 	}
-	s := c.Sched
-	if s == nil || s.free.Load() {
-		return nil, nil
-	}
-	t := s.lookup(goid())
+	t := lookup(goid())
 	if t == nil {
 		return nil, nil
 	}
-	return s, t
+	return t.sched, t
+}
+
+func clearTable() {
+	for i := range gTable {
+		gTable[i].id.Store(0)
+		gTable[i].t.Store(nil)
+	}
 }
 
 // Yield is a scheduling point: the calling task parks and the scheduler picks
@@ -248,7 +261,7 @@ func Gate(l TryLocker, site string) {
 	}
 	s.park(t, site, kYield)
 	for !l.TryLock() {
-		if s.free.Load() {
+		if gFree.Load() {
 			return
 		}
 		s.park(t, site, kBlocked)
@@ -266,7 +279,7 @@ func GateR(l TryRLocker, site string) {
 	}
 	s.park(t, site, kYield)
 	for !l.TryRLock() {
-		if s.free.Load() {
+		if gFree.Load() {
 			return
 		}
 		s.park(t, site, kBlocked)
@@ -290,7 +303,7 @@ func Spawn(site string) *Tok {
 		return nil
 	}
 	t.nspawn++
-	child := &Task{Name: t.Name + "." + itoa(t.nspawn), Origin: site, resume: make(chan int)}
+	child := &Task{Name: t.Name + "." + itoa(t.nspawn), Origin: site, resume: make(chan int), sched: s}
 	return &Tok{s: s, t: child}
 }
 
@@ -301,13 +314,11 @@ func Born(tok *Tok) {
 	if tok == nil {
 		return
 	}
-	s := tok.s
-	c := current()
-	if c == nil || c.Sched != s || s.free.Load() {
+	if gFree.Load() {
 		return
 	}
-	s.register(goid(), tok.t)
-	s.park(tok.t, "born", kBorn)
+	register(goid(), tok.t)
+	tok.s.park(tok.t, "born", kBorn)
 }
 
 // Wrap gives the function literal handed to time.AfterFunc a task identity.
@@ -344,7 +355,7 @@ func SelectOrder(n int, site string) []int {
 		return order
 	}
 	for i := 0; i < n-1; i++ {
-		j := i + c.Tape.Draw(n-i, site)
+		j := i + orderDraw(c, n-i, site)
 		order[i], order[j] = order[j], order[i]
 	}
 	return order
@@ -355,3 +366,11 @@ func ZeroOf[T any](ch chan T) (z T) { return z }
 
 // ZeroOfR is ZeroOf for receive-only channels.
 func ZeroOfR[T any](ch <-chan T) (z T) { return z }
+
+//go:norace
+func orderDraw(c *Ctx, n int, site string) int {
+	if f := c.DrawFn; f != nil {
+		return f(n, site)
+	}
+	return c.Tape.Draw(n, site)
+}
